@@ -57,6 +57,15 @@ class HList:
         return HList(self.items)
 
 
+class HSet(HList):
+    """A mutable set: the list of its (pairwise different) elements; membership uses the engine's symbolic equality."""
+
+    kind = "set"
+
+    def copy(self):
+        return HSet(self.items)
+
+
 class HDict:
     kind = "dict"
 
